@@ -567,7 +567,8 @@ def get(name, tier, seed):
             wz["tags"] = {"mzi_phi": phi, "mzi_arm": "A.f"}
             W11.append((f"MZI/{phi:.4f}", wz, 0 if q else 1))
         return {**base, "prop": "C11", "worlds": (W11[:2] + W11[3:4] + W11[6:]) if q else W11, "core": core11,
-                "probes": (lambda m, w, o: [["measure", "state", [f], True, False] for f in focks(m)]),
+                "probes": (lambda m, w, o: [["measure", "state", [f], True, False] for f in focks(m)]
+                           + [a_ for a_ in core11(m, w, o) if a_[0] == "op" and a_[3] in ("BS", "PhaseShift")]),
                 "depth": 2 if q else 3, "extra_judges": ["c11"]}
     if name == "C08":
         def probes8(m, w, o):
